@@ -276,8 +276,11 @@ def r123(chk):
            node=sl[0] if sl else br)
     chk.ob("C08.R1", where, "count-returned", ok_total, "the reported number of phantoms is the number of records created", node=br)
     # the phantom list starts empty
-    pv = env.get(PV)
-    chk.ob("C08.R1", where, "starts-empty", pv is not None and isinstance(pv, ast.List) and not pv.elts,
+    # (one initialisation before the branches, or one at the head of each branch: every binding of the list is `[]` and none of
+    # them sits inside a loop, where it would drop the records made so far)
+    pdefs = [s_ for s_ in walk_local(fn) if isinstance(s_, ast.Assign) and any(isinstance(t_, ast.Name) and t_.id == PV for t_ in s_.targets)]
+    in_loop = [s_ for s_ in pdefs if any(isinstance(a_, (ast.For, ast.While)) for a_ in ancestors(s_))]
+    chk.ob("C08.R1", where, "starts-empty", bool(pdefs) and all(isinstance(s_.value, ast.List) and not s_.value.elts for s_ in pdefs) and not in_loop,
            "the phantom list starts empty", node=fn)
     # --- R2 originals first and untouched
     rets = [r for r in walk_local(fn) if isinstance(r, ast.Return)]
@@ -474,16 +477,16 @@ def r5(chk):
                 if consts and names and apps:
                     read_const = consts[0].value
                     var = names[0].id
-                    defs = [s for s in walk_local(r) if isinstance(s, ast.Assign) and norm(s.targets[0]) == var]
-                    if defs and isinstance(defs[-1].value, ast.Subscript) and isinstance(defs[-1].value.slice, ast.Constant):
-                        read_col = defs[-1].value.slice.value
+                    from ..canon import expand_locals as _xl
+                    dv = _xl(names[0], r)  # (through any chain of temporaries)
+                    if isinstance(dv, ast.Subscript) and isinstance(dv.slice, ast.Constant):
+                        read_col = dv.slice.value
                     c = apps[0].args[0]
                     if isinstance(c, ast.Call) and norm(c.func) == "CVR":
                         kw = {x.arg: norm(x.value) for x in c.keywords}
                         idn = next((x.value for x in c.keywords if x.arg == "id"), None)
                         # the id is the card identifier built for this sample number (an f-string over the located batch)
-                        id_ok = isinstance(idn, ast.Name) and any(isinstance(s2, ast.Assign) and norm(s2.targets[0]) == idn.id and isinstance(s2.value, ast.JoinedStr)
-                                                                  for s2 in walk_local(r))
+                        id_ok = isinstance(idn, ast.Name) and isinstance(_xl(idn, r), ast.JoinedStr)
                         mvr_ok = kw.get("phantom") == "True" and id_ok and kw.get("votes") == "{}" and not st.orelse
         ok = written is not None and written == read_const and read_col == col and mvr_ok
         chk.ob("C08.R5", f"{rel}:{cls}.sample_from_manifest", "phantom-batch-label-agrees", ok,
